@@ -324,6 +324,7 @@ def expand_c12(st, seed):
         rows = [rpoint(rng, nin, has_t) for _ in range(b)]
         r["obsd"] = dict(on=True, **{"in": rows}, val=[[rng.randint(-3, 3)] for _ in range(b)], slice=[1, 1],
                          etab=[[], [], [5 + i for i in range(b)]] if not st["ot"] else [[rng.choice([1, 2]) + i for i in range(b)], [], []])
+    r["Tmax"] = [1, 3, 2][(b + len(st["batched"])) % 3]       # an attribute of the dynamic loss our equations do not use: no effect expected
     r["check"] = ["sum", "dyn", "ic", "norm", "bnd", "obs"]
     return r
 
@@ -370,7 +371,12 @@ def expand_c13(st, seed):
             kind = ["dirichlet", "none", "neumann"][k % 3] if lk != "ode" else "none"
             g = [rpoly(rng, nin, 1, 1) + [dict(c=1, e=[0] * nin)]]
             bnd = [dict(kind=kind, g=g, comp=[1, 1]) for _ in range(2 * dim)]
-        r["nets"].append(dict(name=name, V=V, ic=ic, obsd=obsd, bnd=bnd))
+        net = dict(name=name, V=V, ic=ic, obsd=obsd, bnd=bnd)
+        if st.get("obs2"):            # a second output; unknown k is observed on its own component (k odd: the first, k even: the second)
+            net["V2"] = rpoly(rng, nin, 2, 2, must=(k + 1) % nin) + [dict(c=-(k + 2), e=[0] * nin)]
+            comp = 1 + (k + 1) % 2
+            obsd["slice"] = [comp, comp]
+        r["nets"].append(net)
         if st["wform"] == "nocons":       # weights of the per-unknown terms omitted: ODE systems drop the terms, PDE systems default to 1.0
             r["wu"].append(dict(ic=0, norm=0, bnd=0, obs=0) if lk == "ode" else dict(ic=1, norm=1, bnd=1, obs=1))
         else:
